@@ -720,7 +720,9 @@ class TaskScenario(ScenarioData):
             # For effort-based tasks, always use the calculated end (when work actually completes)
             # even if an explicit end constraint was specified (that's just the deadline, not the actual end)
             effort = self.property.get("effort", self.scenarioIdx) or 0
-            if effort > 0 or not self.property.get("end", self.scenarioIdx):
+            # (a milestone keeps the instant it was given, also when an effort value
+            # reaches it by inheritance from its container)
+            if (effort > 0 and not is_milestone) or not self.property.get("end", self.scenarioIdx):
                 self.property[("end", self.scenarioIdx)] = actual_end
 
         self.scheduled = True
